@@ -109,6 +109,18 @@ func c02seq(idx int) []resp.Value {
 	case 2:
 		vs = append(vs, resp.Bulk(gen.BulkPayload(r, 40)))
 	}
+	// ... or an array whose last element is a line, a null bulk or an empty array, or an empty array itself: the very
+	// last CRLF of the stream is then read inside an array
+	switch idx % 7 {
+	case 3:
+		vs = append(vs, resp.Array(resp.BulkS("x"), resp.Int(int64(idx))))
+	case 4:
+		vs = append(vs, resp.Array(resp.Status("s"), resp.Array(resp.BulkS("y"), resp.NullBulk())))
+	case 5:
+		vs = append(vs, resp.Array(resp.Array(), resp.Array()))
+	case 6:
+		vs = append(vs, resp.Array())
+	}
 	return vs
 }
 
@@ -380,7 +392,7 @@ func init() {
 	run.Register(&run.Prop{
 		ID: "C02", Level: "exploration",
 		Rule: func(tier string) string {
-			return "case = one sequence of 1..6 generated values plus a sentinel integer, ending in that integer, in a command array or in a bulk string (every tenth sequence carries a bulk around 64 KiB, every tenth an array of 1024..3000 elements, every tenth is 130..430 tiny values - empty arrays alone and as elements, small nested arrays - ending in an array of >= 129 empty arrays and a nested one), parsed through proto.NewParserWithReader over a scripted reader under: whole delivery, 1-byte, 2-byte at both parities, 3-byte, every 2-way split point (all offsets for streams <=400 bytes; all structural offsets and a sample of payload offsets beyond) and 32 random k-way partitions, and seven of these partitions once more with the last byte and the end of stream reported by one and the same read (n>0 together with io.EOF), and up to twelve once more with a read that returns (0, nil) - nothing happened - between every two chunks (half of the large-bulk sequences carry one or two further large bulks of other sizes); verdict = exactly those values in order, then (nil,nil). distinct_nontrivial counts distinct (sequence, served read-size sequence) pairs other than whole delivery; counters split:* classify where the split fell"
+			return "case = one sequence of 1..6 generated values plus a sentinel integer, ending in that integer, in a command array, in a bulk string, or inside an array (a line element, a null bulk, an empty array last) (every tenth sequence carries a bulk around 64 KiB, every tenth an array of 1024..3000 elements, every tenth is 130..430 tiny values - empty arrays alone and as elements, small nested arrays - ending in an array of >= 129 empty arrays and a nested one), parsed through proto.NewParserWithReader over a scripted reader under: whole delivery, 1-byte, 2-byte at both parities, 3-byte, every 2-way split point (all offsets for streams <=400 bytes; all structural offsets and a sample of payload offsets beyond) and 32 random k-way partitions, and seven of these partitions once more with the last byte and the end of stream reported by one and the same read (n>0 together with io.EOF), and up to twelve once more with a read that returns (0, nil) - nothing happened - between every two chunks (half of the large-bulk sequences carry one or two further large bulks of other sizes); verdict = exactly those values in order, then (nil,nil). distinct_nontrivial counts distinct (sequence, served read-size sequence) pairs other than whole delivery; counters split:* classify where the split fell"
 		},
 		Assumptions: []string{"only (n>0,nil) and (0,err) read results are produced, as a net.Conn does", "independent codec resp is correct"},
 		Setup: func(tier string, seed uint64) int {
